@@ -28,6 +28,7 @@ partial def parseProg (j : Json) : Option Prog := do
     let k ← match cls with
       | "keep" => some Derive.keep | "prep" => some Derive.prep | "newdb" => some Derive.newDB
       | "skiptx" => some Derive.skipTx | "disnested" => some Derive.disNested | "where" => some (Derive.whereNe n)
+      | "chain" => some Derive.chain | "initialized" => some Derive.initialized | "debug" => some Derive.debug
       | _ => none
     some (.dv k body (← jBool? (arg a 4)))
   | "man" =>
